@@ -517,6 +517,24 @@ impl Session {
             .rx_ctr_state
             .post_recv(rx_header.plain.ctr, self.is_encrypted(), false)
         {
+            // The message is authentic (it was decrypted with this session's key), so the
+            // acknowledgement it carries is valid even though the message itself is a
+            // duplicate or has fallen behind the receive window. Dropping it here would make
+            // a send that was delivered *and* acknowledged fail with a transmit timeout.
+            if self.is_encrypted() {
+                if let Some(ack) = rx_header.proto.get_ack() {
+                    if let Some(exch_index) = self.get_exch_for_rx(&rx_header.proto) {
+                        let exch = unwrap!(self.exchanges[exch_index].as_mut());
+
+                        if exch.mrp.retrans.as_ref().map(|retrans| retrans.get_msg_ctr())
+                            == Some(ack)
+                        {
+                            exch.mrp.retrans = None;
+                        }
+                    }
+                }
+            }
+
             Err(ErrorCode::Duplicate)?;
         }
 
